@@ -22,7 +22,10 @@ RULE = ('one trash-empty [DAYS] per case over a trash whose entries have dates a
         'concurrently under the seeded scheduler (uniform / PCT / sweep): those entries are dated now and must be kept whole; '
         'now from the simulated clock (local time with microseconds, on a machine whose UTC offset is 0, +1 h, -5 h, +5:30, +9:30, +14 h or -12 h) or TRASH_DATE; non-trivial = at least one entry on each '
         'side of the threshold or an entry exactly on it; distinct = (DAYS, clock source, sorted multiset of deltas)')
-ASSUMPTIONS = ['DeletionDate values that strptime accepts but the spec format does not (single-digit fields) are not generated']
+ASSUMPTIONS = ['DeletionDate values that strptime accepts but the spec format does not (single-digit fields) are not generated',
+               'the concurrent-trash-put variant goes beyond the quantifier listed for C10 (inputs, histories): it only demands that an entry trashed '
+               'DURING trash-empty DAYS (DAYS >= 1, fresh name, dated now) is kept whole - trash-empty without DAYS next to a running trash-put is not judged '
+               '(an entry whose info exists but whose payload has not arrived yet can legitimately be seen half-way)']
 PROBES = ['removed', 'kept', 'exactly-on-threshold', 'one-second-older', 'one-second-younger', 'undated-kept',
           'orphan-purged', 'trash_date_env', 'sim_clock', 'volume-trash-entry', 'duplicate-date-lines', 'far-past', 'future',
           'non-utc-zone', 'concurrent-put', 'fresh-entry-kept-whole']
